@@ -124,7 +124,8 @@ def make_scheduler(env):
     return env.scheduler
 
 
-def run_multi(build, n_static, events, use_scheduler=False, dispose_at=None, horizon=None):
+def run_multi(build, n_static, events, use_scheduler=False, dispose_at=None, horizon=None, warmup=None,
+              after_warmup=None):
     """events: list of (time_ms, k, ev) source notifications (time non-decreasing).
     dispose_at: time_ms at which the subscriber disposes (after events at that time).
     Returns dict(log, inputs) where inputs is the delivered input sequence
@@ -136,6 +137,31 @@ def run_multi(build, n_static, events, use_scheduler=False, dispose_at=None, hor
         obs = build(env, [s.observable for s in statics])
     except Exception as e:
         return {"build_error": e, "env": env}
+
+    if warmup is not None:
+        # an EARLIER subscription of the same observable object, abandoned before the measured
+        # one starts: per-subscription state must start fresh (cold re-subscription)
+        try:
+            w = obs.subscribe(lambda v: None, lambda e: None, lambda: None, scheduler=sched)
+            for (_, k, ev) in warmup:
+                try:
+                    if k < len(env.sources):
+                        env.sources[k].push(ev)
+                except Exception:
+                    pass
+            w.dispose()
+        except Exception:
+            pass
+        del env.log[:]
+        del env.escapes[:]
+        env.sources = env.sources[:n_static]
+        for s in env.sources:
+            s.observers = [r for r in s.observers if r[1]]
+        env.timers.clear()
+        env.n_timers = 0
+        env.tag = 0
+        if after_warmup is not None:
+            after_warmup()      # harness callbacks indexed by invocation restart their count
 
     def on_next(v):
         env.log.append((env.tag, "emit", "N", v))
